@@ -37,6 +37,17 @@ def cat(parts):
             continue
         else:
             out.append(p)
+    # `head` followed by (sep head)* is head joined by sep: x ++ rep_tail(x, sep) == rep(x, sep) over a non-empty list
+    i = 0
+    while i < len(out):
+        p = out[i]
+        if p[0] == "rep_tail":
+            body = list(p[1][1]) if p[1][0] == "cat" else [p[1]]
+            n = len(body)
+            if n and i >= n and out[i - n:i] == body:
+                out[i - n:i + 1] = [("rep", p[1], p[2])]
+                i -= n
+        i += 1
     if len(out) == 1:
         return out[0]
     return ("cat", out)
@@ -361,6 +372,14 @@ class SVEval:
                     return None
             else:
                 return None
+        tail = False
+        if idx is None and len(stmts) == 2 and all(s_.get("k") == "expr" and s_["e"].get("k") == "mcall" and s_["e"]["method"] in ("push_str", "push") and s_["e"]["args"] for s_ in stmts) \
+                and lit_str(stmts[0]["e"]["args"][0]) is not None and expr_text(stmts[0]["e"]["recv"]) == expr_text(stmts[1]["e"]["recv"]):
+            # `for x in rest { acc.push_str(SEP); acc.push_str(&f(x)); }`: every element preceded by the separator — the tail of a join whose head
+            # was appended before the loop (`[first, rest @ ..]`)
+            sep = lit_str(stmts[0]["e"]["args"][0])
+            stmts = stmts[1:]
+            tail = True
         if len(stmts) != 1 or stmts[0].get("k") != "expr" or stmts[0]["e"].get("k") != "mcall" or stmts[0]["e"]["method"] not in ("push_str", "push"):
             return None
         ps = stmts[0]["e"]
@@ -371,7 +390,7 @@ class SVEval:
             return None
         bv = self.first(ps["args"][0], Outcome(o.conds, benv))
         en2 = dict(env)
-        en2[acc] = cat([env[acc], ("rep", bv if bv is not None else ("opaque", "elem"), sep)])
+        en2[acc] = cat([env[acc], ("rep_tail" if tail else "rep", bv if bv is not None else ("opaque", "elem"), sep)])
         return [([], None, False, en2)]
 
     # ------------------------------------------------------------ Option algebra
@@ -676,6 +695,24 @@ class SVEval:
                         aenv[b] = self.some_payload(subj, sv_subj, env)
                     else:
                         aenv[b] = ("var", b)
+            elif pat.get("k") == "slice":
+                # `match xs { [] => .., [first, rest @ ..] => .. }`: emptiness, the head element and the remaining elements of the same list
+                elems_ = pat.get("elems", [])
+                has_rest = any(x_.get("k") == "rest" or (x_.get("sub") or {}).get("k") == "rest" for x_ in elems_)
+                if not elems_:
+                    cond = "%s.is_empty()" % st
+                elif has_rest and len(elems_) == 2:
+                    cond = "!%s.is_empty()" % st
+                is_sub_ = bool(sv_subj and sv_subj[0] == "sub")
+                subject_ = sv_subj[1] if sv_subj and sv_subj[0] in ("sub", "var") else st
+                for x_ in elems_:
+                    if x_.get("k") == "ident" and (x_.get("sub") or {}).get("k") == "rest":
+                        aenv[x_["name"]] = ("iter", subject_, is_sub_)
+                    elif x_.get("k") == "ident":
+                        aenv[x_["name"]] = ("sub", subject_ + "[]") if is_sub_ else ("var", x_["name"])
+                    else:
+                        for b in pat_bindings(x_):
+                            aenv[b] = ("var", b)
             elif pat.get("k") == "ident":
                 aenv[pat["name"]] = sv_subj
             elif pat.get("k") == "tuple":
